@@ -321,3 +321,57 @@ func (e *Engine) confirmInEngine(v *Violation, values map[string]uint64) bool {
 	}
 	return false
 }
+
+// validateSamples runs the sampled inputs of completed paths natively: the engine found no failing
+// obligation on those paths, so the natively compiled harness must report "ok" as well.
+func (e *Engine) validateSamples(prop string) {
+	type job struct{ v *Violation }
+	var jobs []job
+	for _, vs := range e.okSamples {
+		for _, v := range vs {
+			jobs = append(jobs, job{v})
+		}
+	}
+	sem := make(chan struct{}, 6)
+	done := make(chan string, len(jobs))
+	for _, j := range jobs {
+		j := j
+		go func() {
+			sem <- struct{}{}
+			defer func() { <-sem }()
+			rf := replayFile{Property: prop, Harness: j.v.Harness, Kind: "sample", Label: j.v.Label, Tier: e.tier,
+				Values: map[string]uint64{}, Path: j.v.Path, Package: j.v.Pkg, PkgDir: j.v.PkgDir}
+			if j.v.Model != nil {
+				for k, x := range j.v.Model.vars {
+					rf.Values[k] = x
+				}
+				for fn, m := range j.v.Model.funcs {
+					for args, x := range m {
+						rf.Values[fn+"["+args+"]"] = x
+					}
+				}
+			}
+			for k, x := range j.v.Choices {
+				rf.Values[k] = x
+			}
+			dir := filepath.Join(e.verifDir, "replays")
+			os.MkdirAll(dir, 0o755)
+			p := filepath.Join(dir, fmt.Sprintf("%s_%s_sample_%s.json", prop, j.v.Harness, j.v.Label))
+			b, _ := json.MarshalIndent(rf, "", " ")
+			os.WriteFile(p, b, 0o644)
+			res, _ := e.runNative(&rf, p)
+			if res == "ok" {
+				done <- ""
+			} else {
+				done <- fmt.Sprintf("%s %s: engine found no failure on this path but the native run says %q (replay %s)", j.v.Harness, j.v.Label, res, p)
+			}
+		}()
+	}
+	for range jobs {
+		if r := <-done; r == "" {
+			e.tracesValidated++
+		} else {
+			e.tracesMismatch = append(e.tracesMismatch, r)
+		}
+	}
+}
